@@ -24,6 +24,7 @@ func TestWorldModels(t *testing.T) {
 		}
 		evs = append(evs, GenAction(tape, k, ses, 2000+i, 1000+i%5))
 	}
+	evs = append(evs, k.AVC("78", 4343, 1000))
 	evs = append(evs, k.Login("77", 4242, 1000), k.UserMsg("CRED_DISP", "77", 4242, 1000, true, 0),
 		k.UserMsg("USER_END", "77", 4242, 1000, false, 1))
 	for _, e := range evs {
@@ -41,7 +42,7 @@ func TestWorldModels(t *testing.T) {
 		if ce.Process.PID != fmt.Sprint(e.PID) {
 			t.Errorf("pid: got %q want %d for %v", ce.Process.PID, e.PID, e.Lines[0])
 		}
-		if ce.Type.String() != e.Type {
+		if e.Type != "AVC" && ce.Type.String() != e.Type {
 			t.Errorf("type: got %q want %q", ce.Type.String(), e.Type)
 		}
 		wantRes := "fail"
